@@ -116,6 +116,9 @@ def malformed(repo):
     ("non-numeric parameter", P.replace("as.buck 1000.0 0.3 10.0", "as.buck 1000.0 rho 10.0")),
     ("no potential form", P.replace("A-B : as.buck 1000.0 0.3 10.0", "A-B :")),
     ("range without potential", P.replace(">=3.0 as.zero", ">=3.0")),
+    ("definition that is a lone range start", P.replace("A-B : as.buck 1000.0 0.3 10.0", "A-B : >=1.0")),
+    ("definition that is a lone range start with a blank", P.replace("A-B : as.buck 1000.0 0.3 10.0", "A-B : > 0")),
+    ("lone range start on a continuation line", P.replace("A-B : as.buck 1000.0 0.3 10.0", "A-B :\n   >=1.0")),
     ("bad range marker", P.replace(">=3.0 as.zero", "=>3.0 as.zero")),
     ("non-numeric range start", P.replace(">=3.0 as.zero", ">=far as.zero")),
     ("custom form with too few arguments", P.replace("f 2.0 1.0", "f 2.0")),
@@ -185,6 +188,8 @@ def malformed(repo):
     ("no [EAM-Embed] section", E.replace("[EAM-Embed]\nA : as.polynomial 0 1\nB : as.sqrt -1.0\n\n", "")),
     ("no [EAM-Density] section", E.replace("[EAM-Density]\nA : as.exponential 1.0 2\nB : as.polynomial 0 0.5\n", "")),
     ("unknown form in [EAM-Embed]", E.replace("A : as.polynomial 0 1", "A : as.poly 0 1")),
+    ("embedding entry that is a lone range start", E.replace("A : as.polynomial 0 1", "A : >=1.0")),
+    ("density entry that is a lone range start", E.replace("A : as.exponential 1.0 2", "A : > 0")),
     ("wrong arity in [EAM-Density]", E.replace("A : as.exponential 1.0 2", "A : as.exponential 1.0")),
     ("A->B->C density key", F.replace("A->B :", "A->B->A :")),
     ("density key with arrow only", F.replace("A->B :", "-> :")),
